@@ -156,4 +156,14 @@ META["C06"] = dict(
         "Trace_Auth.tla judges with the real constants (32, 2).",
    technique="TLA+ spec (Auth.tla) + TLC exhaustive MC of the acceptor + all TLC behaviours replayed into authenticate_client + real-server TLS rig + TLC trace validation",
    design_ref="DESIGN.md 3/C06")
+META["C15"] = dict(
+   text="Udp.tla models the length-prefixed encoding of datagrams into a byte stream that is fragmented arbitrarily and an "
+        "implementation-shaped decoder (read exactly the prefix, then exactly the payload); TLC checks OneInOneOut and "
+        "ConsumesWholeDatagrams for every sequence of up to 3 datagrams and every fragmentation. TLC-enumerated behaviours are "
+        "replayed by a scripted peer into the real handle_udp_over_tcp on a real stream with a real loopback UDP target (both "
+        "directions), and end-to-end rounds go through Client::create_udp_proxy and the real server; Trace_Udp.tla accepts a "
+        "delivery only if it is the oldest datagram under way in its direction, with the same length and contents, to/from the "
+        "right socket, and nothing may be left or invented at the end.",
+   technique="TLA+ spec (Udp.tla) + TLC exhaustive MC + TLC behaviours replayed into the UDP handler + end-to-end UDP rig + TLC trace validation",
+   design_ref="DESIGN.md 3/C15")
 NOT_YET = "check not built yet in this round (planned: DESIGN.md section 3); not claimed"
